@@ -4,7 +4,7 @@
    atomic load / atomic store / Lock / Unlock of the code); the pools by Conc/PoolModel.v. Every theorem quantifies
    over ALL numbers of goroutines, ALL lists of requested types per goroutine, ALL type graphs (recursive or not),
    and ALL schedules. The sequential projection of the machine is tied to the real caches on every run. *)
-From Verif Require Import Conc.CacheModel Conc.CacheSpec Conc.CacheProofs Conc.LockProofs Conc.PoolModel Conc.PoolSpec Conc.PoolProofs.
+From Verif Require Import Conc.CacheModel Conc.CacheSpec Conc.CacheProofs Conc.LockProofs Conc.DrfSpec Conc.DrfProofs Conc.PoolModel Conc.PoolSpec Conc.PoolProofs.
 
 (* the ghost publication history contains the current pointer *)
 Theorem ptr_in_pubs : ptr_in_pubs_statement.
@@ -46,6 +46,16 @@ Proof. exact CacheProofs.read_published. Qed.
 (* (c) every object handed to a caller is an entry of a published map *)
 Theorem use_published : use_published_statement.
 Proof. exact CacheProofs.use_published. Qed.
+
+(* (c) data-race freedom of the machine: in the event log of EVERY schedule, any two conflicting accesses (same map
+   object, or same construction's codec objects incl. everything a caller reads through a returned object; different
+   goroutines; at least one write) are ordered by happens-before = program order + atomic store -> load that returns
+   the stored map + Unlock -> later Lock, transitively closed *)
+Theorem drf : drf_statement.
+Proof. exact DrfProofs.drf. Qed.
+(* the happens-before relation is not vacuous: an unordered write / use pair is reported as a race *)
+Theorem race_detected : race_detected_statement.
+Proof. exact DrfProofs.race_detected. Qed.
 
 (* (d) proto.TypeOf: mutual exclusion *)
 Theorem mutex : mutex_statement.
